@@ -168,6 +168,55 @@ def run_pointwise(ctx: Ctx) -> None:
             return True, ""
         _guard(ctx, "T16.norm", name, f, f"loss={name} norm/symmetry", th_norm)
 
+        def th_norm_mask(f=f):
+            # the two options together: the factor divides the masked loss as well
+            it, facts, x, y, p = mk()
+            c = Rat.atom("nrm")
+            facts.declare_positive(c)
+            for desc, M in _masks(facts)[:2]:
+                for red in ("none", "sum", "mean"):
+                    base = it.call(f, x, y, mask=M, reduction=red)
+                    for norm in (4, STensor.from_flat([c], [])):
+                        r = it.call(f, x, y, mask=M, reduction=red, norm=norm)
+                        if not teq(r, base.div(norm)):
+                            return False, f"mask {desc} and norm={norm} (reduction={red}): the masked loss is not divided by the factor"
+            return True, ""
+        _guard(ctx, "T16.norm", name + ":masked", f, f"loss={name} norm with mask", th_norm_mask)
+
+        def th_mask_nc(f=f):
+            # batch size different from the number of channels (N=1, C=2 and N=3, C=2): every documented mask shape is accepted
+            for shape, mshapes in (([1, 2, 2, 2], ([1, 2, 2, 2], [1, 1, 2, 2])), ([3, 2, 1, 2], ([3, 2, 1, 2], [1, 2, 1, 2], [3, 1, 1, 2]))):
+                reset_relations()
+                facts = fresh_facts()
+                it = make_interp(ctx)
+                x, y = STensor.symbols("x", shape), STensor.symbols("y", shape)
+                none = it.call(f, x, y, reduction="none")
+                for ms in mshapes:
+                    n = 1
+                    for k in ms:
+                        n *= k
+                    vals = []
+                    for i in range(n):
+                        if i % 3 == 0:
+                            vals.append(Rat.of(0))
+                        else:
+                            w = Rat.atom(f"m{'x'.join(map(str, ms))}_{i}")
+                            facts.declare_positive(w)
+                            vals.append(w)
+                    M = STensor.from_flat(vals, ms)
+                    try:
+                        mn = it.call(f, x, y, mask=M, reduction="none")
+                        mm = it.call(f, x, y, mask=M, reduction="mean")
+                    except InterpError as e:
+                        return False, f"images of shape {tuple(shape)}: the documented mask shape {tuple(ms)} is rejected ({e})"
+                    Me = M.expand(shape)
+                    if not teq(mn, none.mul(Me)):
+                        return False, f"images {tuple(shape)}, mask {tuple(ms)}: 'none' output is not none * mask"
+                    if not teq(mm, none.mul(Me).sum().div(Me.sum())):
+                        return False, f"images {tuple(shape)}, mask {tuple(ms)}: 'mean' is not sum(none * mask) / sum(expanded mask)"
+            return True, ""
+        _guard(ctx, "T16.mask", name + ":N!=C", f, f"loss={name} mask shapes with N != C", th_mask_nc)
+
 
 OSHAPE = [2, 2, 1, 2]  # overlap measures are ratios: keep the polynomials small
 
